@@ -57,7 +57,12 @@ impl ExtendedPublicKey {
     }
 
     pub fn from_string_impl(xpub_string: &str) -> Result<Self, BSVErrors> {
-        let mut cursor = Cursor::new(bs58::decode(xpub_string).into_vec()?);
+        let decoded = bs58::decode(xpub_string).into_vec()?;
+        // 78 byte payload + 4 byte checksum
+        if decoded.len() != 82 || Hash::sha_256d(&decoded[..78]).to_bytes()[..4] != decoded[78..] {
+            return Err(BSVErrors::DerivationError("Extended public key has an invalid length or checksum".into()));
+        }
+        let mut cursor = Cursor::new(decoded);
 
         // Skip the first 4 bytes "xprv"
         cursor.set_position(4);
